@@ -125,7 +125,7 @@ def ecdsa_signature_parse_der(der, context=None):
     # Verify that r and s are within the group order
     if r < 1 or s < 1 or r >= _key.SECP256K1_ORDER or s >= _key.SECP256K1_ORDER:
         raise ValueError("Failed parsing compact signature")
-    if s >= _key.SECP256K1_ORDER_HALF:
+    if s > _key.SECP256K1_ORDER_HALF:
         raise ValueError("Failed parsing compact signature")
 
     return r.to_bytes(32, "little") + s.to_bytes(32, "little")
@@ -158,7 +158,7 @@ def ecdsa_signature_normalize(sig, context=None):
         raise ValueError("Signature should be 64 bytes long")
     r = int.from_bytes(sig[:32], "little")
     s = int.from_bytes(sig[32:], "little")
-    if s >= _key.SECP256K1_ORDER_HALF:
+    if s > _key.SECP256K1_ORDER_HALF:
         s = _key.SECP256K1_ORDER - s
     return r.to_bytes(32, "little") + s.to_bytes(32, "little")
 
